@@ -152,8 +152,18 @@ Record prep_ok (ms : list member) (ts : topics_t) (pr : prep) : Prop := {
   po_ids : forall m, In m (akeys (s_ca (pr_s0 pr))) \/ In m (akeys (pr_fixed pr)) -> In m (map m_id ms);
   po_run : run_inv ms ts (akeys (s_ca (pr_s0 pr))) (pr_fixed pr) (pr_s0 pr);
   po_parts : forall q, In q (pr_parts pr) -> part_can_participate (pr_p2c pr) q = true;
-  po_parts_all : forall q, In q (all_tps ts) -> part_can_participate (pr_p2c pr) q = true -> In q (pr_parts pr)
+  po_parts_all : forall q, In q (all_tps ts) -> part_can_participate (pr_p2c pr) q = true -> In q (pr_parts pr);
+  po_sorted : s_sorted (pr_s0 pr) = sort_members (s_ca (pr_s0 pr))
 }.
+
+Lemma assign_all_sorted : forall c2p p2c una ca cpc sorted ca' cpc' sorted',
+  assign_all c2p p2c una ca cpc sorted = (ca', cpc', sorted') -> sorted = sort_members ca -> sorted' = sort_members ca'.
+Proof.
+  intros c2p p2c. induction una as [|x r IH]; intros ca cpc sorted ca' cpc' sorted' E H; cbn [assign_all] in E.
+  - now injection E as <- _ <-.
+  - destruct (p2c_get p2c x); [eapply IH; eauto|]. unfold assign_partition in E.
+    destruct (first_potential c2p x sorted); eapply IH; eauto.
+Qed.
 
 Lemma prepop_members_none : forall ms ids sp, prepop_members ms ids sp = None -> exists mm, In mm ms /\ m_ud mm = UDErr.
 Proof.
@@ -248,6 +258,8 @@ Proof.
     destruct (drop_nonparticipating_spec p2c (akeys p2c) _ SP1) as [_ DS]. apply DS. split.
     + apply sort_partitions_cover. now rewrite F2.
     + intros [_ H]. congruence.
+  - destruct fixed as [|f0 fr]; [|reflexivity].
+    rewrite (split_fixed_nil _ _ _ _ _ _ Esp). eapply assign_all_sorted; [exact Eas | reflexivity].
 Qed.
 
 (* ---- the theorem ---- *)
@@ -264,7 +276,7 @@ Proof.
   2:{ cbn [p_res]. unfold sticky_prepare in Ep. destruct (prepopulate o ms) as [[ca0 prev]|] eqn:Epre.
       - destruct (pot_members ts ms [] (p2c_init (all_tps ts)) ca0) as [[c2p p2c] ca1]. discriminate.
       - unfold prepopulate in Epre. destruct (prepop_members ms _ []) eqn:E1; [discriminate|]. eapply prepop_members_none; eassumption. }
-  destruct (sticky_prepare_ok o ms ts pr Wm Wt Ep) as [C1 C2 NW NF DJ FP KY ID RI PA _].
+  destruct (sticky_prepare_ok o ms ts pr Wm Wt Ep) as [C1 C2 NW NF DJ FP KY ID RI PA _ _].
   set (W := akeys (s_ca (pr_s0 pr))) in *.
   unfold run_perform.
   destruct (perform fuel true (pr_prev pr) (pr_c2p pr) (pr_p2c pr) (pr_parts pr) (pr_s0 pr) false) as [[s' pf] e] eqn:Er.
